@@ -135,6 +135,11 @@ func (s Sample) Mean() float64 {
 		//   m_i = (1 - w_i/wsum_i) * m_(i-1) + (w_i/wsum_i) * x_i
 		//       = m_(i-1) + (x_i - m_(i-1)) * (w_i/wsum_i)
 		w := s.Weights[i]
+		if w == 0 {
+			// Zero-weight samples don't contribute (and
+			// would divide by zero if wsum is still 0).
+			continue
+		}
 		wsum += w
 		m += (x - m) * w / wsum
 	}
@@ -202,6 +207,9 @@ func (s Sample) GeoMean() float64 {
 	m, wsum := 0.0, 0.0
 	for i, x := range s.Xs {
 		w := s.Weights[i]
+		if w == 0 {
+			continue
+		}
 		wsum += w
 		lx := math.Log(x)
 		m += (lx - m) * w / wsum
